@@ -21,8 +21,10 @@ import (
 	"os"
 	"regexp"
 	"runtime"
+	"runtime/debug"
 	"strings"
 	"sync"
+	"sync/atomic"
 	"testing"
 	"unicode"
 )
@@ -351,7 +353,7 @@ func xparallel(pats []xnode, f func(p xnode)) {
 		go func() {
 			defer wg.Done()
 			for p := range work {
-				f(p)
+				xguard(p, f)
 			}
 		}()
 	}
@@ -362,7 +364,33 @@ func xparallel(pats []xnode, f func(p xnode)) {
 	wg.Wait()
 }
 
+// a panic of the code under test while a stand-in case runs is a refutation (the public API must not panic, and the
+// case cannot be compared), not a stand-in that "did not run": it is printed as a mismatch with the panic value and
+// the top of the stack, the other cases go on, and finish fails the run
+var xPanics int64
+
+func xguard(p xnode, f func(p xnode)) {
+	defer func() {
+		if r := recover(); r != nil {
+			if atomic.AddInt64(&xPanics, 1) <= 3 {
+				st := string(debug.Stack())
+				if i := strings.Index(st, "panic("); i >= 0 {
+					st = st[i:] // the frames of the code under test follow the runtime's panic frame
+				}
+				if len(st) > 1500 {
+					st = st[:1500]
+				}
+				fmt.Printf("STANDIN-MISMATCH panic case=%q: %v | stack: %s\n", p.fwd(), r, strings.ReplaceAll(st, "\n", " ; "))
+			}
+		}
+	}()
+	f(p)
+}
+
 func (x *xrun) finish(t *testing.T) {
+	if n := atomic.LoadInt64(&xPanics); n > 0 {
+		defer t.Fatalf("%d cases panicked in the code under test", n)
+	}
 	fmt.Printf("STANDIN-PATTERNS %d\n", x.patterns)
 	fmt.Printf("STANDIN-CASES %d\n", x.cases)
 	fmt.Printf("STANDIN-SKIPPED %d\n", x.skipped)
